@@ -393,7 +393,8 @@ def single_explicit(ctx):
         continue
       seen.add(cont.attr)
       tail = U.const_value(sl.lower) == 1 and sl.upper is None and sl.step is None
-      zero = [x for x in blk[:i] if isinstance(x, ast.Assign) and len(x.targets) == 1 and isinstance(x.targets[0], ast.Attribute) and x.targets[0].attr == 'time' and
+      # before or after the deletion: element 0 is the one that is kept either way
+      zero = [x for x in blk if isinstance(x, ast.Assign) and len(x.targets) == 1 and isinstance(x.targets[0], ast.Attribute) and x.targets[0].attr == 'time' and
               U.const_value(x.value) == 0 and isinstance(x.targets[0].value, ast.Subscript) and U.const_value(x.targets[0].value.slice) == 0 and
               norm_text(x.targets[0].value.value) == norm_text(cont)]
       ok = tail and len(zero) == 1
@@ -403,14 +404,19 @@ def single_explicit(ctx):
       # "explicit at time zero" holds for one stored element as well: the zeroing runs whenever the list is non-empty,
       # i.e. the only enclosing branch condition on the path to it is the non-emptiness of that list
       if zero:
-        extra = [t for (t, pol) in U.enclosing_tests(fi.node, zero[0]) if not (pol and norm_text(t) == norm_text(cont))]
+        def _strip(t, pol):
+          while isinstance(t, ast.UnaryOp) and isinstance(t.op, ast.Not):
+            t, pol = t.operand, not pol
+          return t, pol
+        extra = [t for (t, pol) in (_strip(*tp) for tp in U.enclosing_tests(fi.node, zero[0])) if not (pol and norm_text(t) == norm_text(cont))]
         ctx.ob('FRAME/single-at-zero', fi, zero[0], not extra, 'the kept %s element is moved to time 0 whenever there is one' % cont.attr if not extra else
                'the time of the kept %s element is set to 0 only under the further condition %s: a single element at a later time stays where it is' % (
                    cont.attr, ', '.join(norm_text(t) for t in extra)),
                construct='%s[0].time = 0 whenever %s is non-empty' % (cont.attr, cont.attr), definite=True)
   for f in ('tempos', 'time_signatures'):
     if f not in seen:
-      ctx.ob('FRAME/single-at-zero', fi, fi.node, False, 'quantize_note_sequence no longer reduces %s to its first stored element' % f, construct='%s[0].time = 0; del %s[1:]' % (f, f))
+      ctx.ob('FRAME/single-at-zero', fi, fi.node, False, 'quantize_note_sequence no longer reduces %s to its first stored element' % f, construct='%s[0].time = 0; del %s[1:]' % (f, f),
+             unknown='no `del <copy>.%s[1:]` found: how the list is reduced to one element is not recognised' % f)
 
 
 def escapes(ctx, rel, ab):
@@ -491,9 +497,13 @@ def validation(ctx):
         zero_tested = True
   elif isinstance(v, ast.UnaryOp) and isinstance(v.op, ast.Not) and v.operand is trick[0]:
     zero_tested = True
+  elif isinstance(v, ast.Compare) and len(v.ops) == 1 and isinstance(v.ops[0], ast.Eq) and \
+      ((v.left is trick[0] and U.const_value(v.comparators[0]) == 0) or (v.comparators[0] is trick[0] and U.const_value(v.left) == 0)):
+    zero_tested = True
   ok = zero_tested and nonzero_x
   ctx.ob('ESC/power-of-2', p2, r[0], ok, 'x is non-zero and x & (x - 1) is zero' if ok else
-         'power-of-two test %s does not require both x != 0 and x & (x - 1) == 0' % norm_text(v), construct='power-of-two test')
+         'power-of-two test %s does not require both x != 0 and x & (x - 1) == 0' % norm_text(v), construct='power-of-two test',
+         definite=bool(trick) and zero_tested and not nonzero_x)      # the idiom is located and tested for zero, but nothing excludes x == 0
   # change detection: every later event compared on the value fields with !=, against the first in time order
   for field, attrs in (('time_signatures', {'numerator', 'denominator'}), ('tempos', {'qpm'})):
     loop = None
